@@ -23,6 +23,9 @@
 #include "multitensor/params.hpp"
 #include "multitensor/tensor.hpp"
 #include "multitensor/utils.hpp"
+#ifdef MULTITENSOR_VERIF
+#include "multitensor/verif_hooks.hpp"
+#endif
 
 namespace multitensor
 {
@@ -34,6 +37,9 @@ namespace solver
 //! @brief Class for the solver
 class Solver
 {
+#ifdef MULTITENSOR_VERIF
+    friend struct ::multitensor::verif::Access;
+#endif
 private:
 
     size_t nof_realizations;
@@ -497,6 +503,12 @@ private:
         {
             double L2_old = L2;
             L2 = calculate_likelyhood(u, v, w, A);
+#ifdef MULTITENSOR_VERIF
+            if (verif::observer())
+            {
+                verif::observer()->likelihood_computed(iteration, L2);
+            }
+#endif
             if (std::abs(L2_old - L2)/std::abs(L2_old) < EPS_PRECISION_LIKELIHOOD)
             {
                 coincide++;
@@ -612,6 +624,19 @@ public:
                 initialization::init_tensor_rows_random(v_list, v_temp, random_generator);
             }
             initialization::init_tensor_rows_random(u_list, u_temp, random_generator);
+#ifdef MULTITENSOR_VERIF
+            if (verif::observer())
+            {
+                if constexpr (directed)
+                {
+                    verif::observer()->realization_start(i, u_temp, v_temp, w_temp.get_data());
+                }
+                else
+                {
+                    verif::observer()->realization_start(i, u_temp, u_temp, w_temp.get_data());
+                }
+            }
+#endif
 
             // Likelihood, convergence criteria and iterations
             double L2(std::numeric_limits<double>::lowest());
@@ -637,6 +662,21 @@ public:
                                        u_temp, u_temp, w_temp,
                                        iteration, coincide, L2);
                 }
+#ifdef MULTITENSOR_VERIF
+                if (verif::observer())
+                {
+                    if constexpr (directed)
+                    {
+                        verif::observer()->iteration_end(i, iteration, u_temp, v_temp, w_temp.get_data(),
+                                                         L2, coincide, static_cast<int>(term_reason));
+                    }
+                    else
+                    {
+                        verif::observer()->iteration_end(i, iteration, u_temp, u_temp, w_temp.get_data(),
+                                                         L2, coincide, static_cast<int>(term_reason));
+                    }
+                }
+#endif
             }
             std::cout << "\t... finished after " << iteration << " iterations. "
                       << "Reason: " << get_termination_reason_name(term_reason)
@@ -645,6 +685,12 @@ public:
             // Update report and best configuration
             results.vec_iter.emplace_back(iteration);
             results.vec_term_reason.emplace_back(get_termination_reason_name(term_reason));
+#ifdef MULTITENSOR_VERIF
+            if (verif::observer())
+            {
+                verif::observer()->realization_end(i, L2, results.max_L2() < L2);
+            }
+#endif
             if (results.max_L2() < L2)
             {
                 std::swap(w, w_temp);
